@@ -127,6 +127,11 @@ def run(rep, tier, seed, pa):
         ep("copy_flush", lambda c, d: c.copy_flush(), True)
         ep("merge(out of place)", lambda c, d: c.merge(c.copy()), True)
         ep("__add__", lambda c, d: c + c.copy(), True)
+        # degenerate arguments: nothing to merge (no annotator at all / annotators without units / the flushed copy) must still give a fresh object
+        ep("merge(empty continuum)", lambda c, d: c.merge(pa.Continuum()), True)
+        ep("__add__(empty continuum)", lambda c, d: c + pa.Continuum(), True)
+        ep("merge(flushed copy)", lambda c, d: c.merge(c.copy_flush()), True)
+        ep("merge(self)", lambda c, d: c.merge(c), True)
 
         def samp(cls, **kw):
             def f(c, d):
